@@ -898,10 +898,9 @@ Proof.
   rewrite clients_at_fold_add. tauto.
 Qed.
 
-(** * Refutations on the code as it is (the [_gen] functions with the flags
-      [false], which is what [update_notification] / [add_subscription] are
-      until the patches are committed), with their witnesses
-      (corpus/C06/kf1..kf3) *)
+(** * Regression refutations: the three clauses were false of the code before
+      commits 0aa714c / 601ff89 / 434b003 (the [_gen] functions with the flags
+      [false]); witnesses corpus/C06/fixed_*.json *)
 
 Definition w_dev := "dev1".
 Definition w_pre : gpath := gp_prefix w_dev "" [].
@@ -1027,17 +1026,12 @@ Proof.
   intros H. apply app_eq_nil in H as [H1 H]. apply app_eq_nil in H as [H2 H3].
   repeat split.
   - intros E. rewrite E in H1. destruct n; [reflexivity|]. exfalso.
-    destruct gone; [discriminate|]. destruct (existsb r_nonlast (s0 :: gone)); discriminate.
-  - intros E. rewrite E in H1. destruct live; [reflexivity|]. exfalso.
-    destruct (forallb r_nil (s0 :: live)); [discriminate|].
-    destruct (mem c (s_multi_removed s)); discriminate.
+    destruct gone; discriminate.
+  - intros E. rewrite E in H1. destruct live; [reflexivity|discriminate].
   - destruct live eqn:El.
-    + destruct n; [lia|]. exfalso.
-      destruct gone; [discriminate|]. destruct (existsb r_nonlast (s0 :: gone)); discriminate.
-    + destruct (2 <=? n)%nat eqn:E2; [|apply Nat.leb_gt in E2; lia]. exfalso.
-      destruct (Nat.eqb np 1 && (2 <=? List.length (dedup_paths (map r_path (s0 :: l))))%nat); discriminate.
-  - intros Hh En. rewrite Hh, En in H3. cbn in H3.
-    destruct live; [discriminate|]. destruct (forallb r_nil (s0 :: live)); discriminate.
+    + destruct n; [lia|]. exfalso. destruct gone; discriminate.
+    + destruct (2 <=? n)%nat eqn:E2; [discriminate|apply Nat.leb_gt in E2; lia].
+  - intros Hh En. rewrite Hh, En in H3. discriminate.
 Qed.
 
 (** more non-vacuity instances *)
